@@ -25,7 +25,9 @@ import (
 func init() { checks["C08"] = runC08 }
 
 var c08Keys = []string{"a", "b", "z", "k", "", " ", "1", "2", "10", "01", "0x1f", "1e3", "true", "false", "yes", "no", "null", "~", "3.5", "a b", "a: b", "- x", "#c", "é", "日本",
-	"key", "Key", "KEY", "C:\\new\\bin", "a\\\\b", "\\tmp", "trail\\", "{x}", "[y]", "*s", "&t", "!u", "%v", "@w", "`q", "it's", "q\"q", "tab\tk", "nl\nk", "?", "|", ">", "=", "---", "...", "2002-08-15", "1:30", "+1", ".inf"}
+	"key", "Key", "KEY", "C:\\new\\bin", "a\\\\b", "\\tmp", "trail\\", "{x}", "[y]", "*s", "&t", "!u", "%v", "@w", "`q", "it's", "q\"q", "tab\tk", "nl\nk", "?", "|", ">", "=", "---", "...", "2002-08-15", "1:30", "+1", ".inf",
+	// every spelling yaml.v3 resolves to something other than a string when written plain (a key is a string here)
+	"True", "TRUE", "False", "FALSE", "Null", "NULL", "Yes", "NO", "On", "off", "Y", "n", "0o17", "0b101", "1_000", "+.5", ".5", "-0", "0.0", "1.0", ".NaN", ".Inf", "-.inf", "0X1F", "1e+3", "0x_1f"}
 
 func c08Map(r *core.Rand, size, depth int) *ordered.MapSA {
 	m := ordered.NewMap[string, any](size)
